@@ -21,6 +21,27 @@ type FaultFS struct {
 	FailAt int
 	Fired  string // description of the call that was failed
 	Calls  int    // calls seen while armed
+	// Only, when set (e.g. "read"), restricts counting and failing to calls of that kind.
+	Only string
+	// Reads makes Read/ReadAt/Slice count (and fail) too.
+	Reads bool
+	// nextKind, when set, fails the next call whose description starts with it (e.g. "sync "), once.
+	nextKind string
+}
+
+// ClearNext cancels a pending FailNext.
+func (f *FaultFS) ClearNext() {
+	f.mu.Lock()
+	f.nextKind = ""
+	f.mu.Unlock()
+}
+
+// FailNext fails the next call of the given kind ("sync", "write", "open", "read", ...), once.
+func (f *FaultFS) FailNext(kind string) {
+	f.mu.Lock()
+	f.nextKind = kind + " "
+	f.Fired = ""
+	f.mu.Unlock()
 }
 
 func NewFaultFS(inner fs.FileSystem) *FaultFS { return &FaultFS{FileSystem: inner, FailAt: -1} }
@@ -41,7 +62,15 @@ func (f *FaultFS) Disarm() {
 func (f *FaultFS) hit(desc string) bool {
 	f.mu.Lock()
 	defer f.mu.Unlock()
+	if f.nextKind != "" && len(desc) >= len(f.nextKind) && desc[:len(f.nextKind)] == f.nextKind {
+		f.nextKind = ""
+		f.Fired = desc
+		return true
+	}
 	if !f.armed {
+		return false
+	}
+	if f.Only != "" && !(len(desc) > len(f.Only) && desc[:len(f.Only)] == f.Only) {
 		return false
 	}
 	i := f.n
@@ -111,4 +140,25 @@ func (h *faultFile) Truncate(size int64) error {
 		return ErrInjected
 	}
 	return h.File.Truncate(size)
+}
+
+func (h *faultFile) Read(p []byte) (int, error) {
+	if h.f.Reads && h.f.hit("read " + h.name) {
+		return 0, ErrInjected
+	}
+	return h.File.Read(p)
+}
+
+func (h *faultFile) ReadAt(p []byte, off int64) (int, error) {
+	if h.f.Reads && h.f.hit("read " + h.name) {
+		return 0, ErrInjected
+	}
+	return h.File.ReadAt(p, off)
+}
+
+func (h *faultFile) Slice(start, end int64) ([]byte, error) {
+	if h.f.Reads && h.f.hit("read " + h.name) {
+		return nil, ErrInjected
+	}
+	return h.File.Slice(start, end)
 }
